@@ -36,6 +36,7 @@ def run(ctx):
     return ctx.finish()
 
 def replay(ctx, cx, h=None):
+    if (h is not None and h.name.startswith('C09_logts')) or 'cx_dplaces' in cx.get('cx', cx): return C09_logts.replay(ctx, cx, h)
     c = cx.get('cx', cx)
     exe = ctx.native('c09replay', ['replay/c09_replay.cpp'], flags=('-O1', '-fsanitize=address,undefined', '-fno-sanitize-recover=undefined'))
     r = sh([exe] + [str(int(c[k])) for k in ('cx_ind', 'cx_y', 'cx_mo', 'cx_d', 'cx_h', 'cx_mi', 'cx_s', 'cx_ms')], env=dict(os.environ, ASAN_OPTIONS='detect_leaks=0', TZ='UTC'))
